@@ -41,7 +41,8 @@ def floatDecode (x : Float) : Nat × Int :=
   if ex == 0 then (fr, -1074) else (fr + (1 <<< 52), (ex : Int) - 1075)
 
 def floatHypot (x y : Float) : Float :=
-  if x.isNaN || y.isNaN || x.isInf || y.isInf then Float.sqrt (x * x + y * y) else
+  if x.isInf || y.isInf then Float.ofBits 0x7ff0000000000000     -- C99: infinite if either is
+  else if x.isNaN || y.isNaN then x + y else
   let (mx, ex) := floatDecode x
   let (my, ey) := floatDecode y
   let emin := min ex ey
